@@ -92,11 +92,11 @@ def confirm_replay(path):
 def project_tasks(prop, tier, base):
     tasks = []
     if tier == "quick":
-        n_hist = {"C20": 260, "C10": 520, "C09": 520, "C11": 520, "C14": 520}[prop]
-        n_enum = 28 if prop == "C20" else 0
+        n_hist = {"C20": 2500, "C10": 4000, "C09": 4000, "C11": 4000, "C14": 4000}[prop]
+        n_enum = 160 if prop == "C20" else 0
     else:
-        n_hist = {"C20": 20000, "C10": 40000, "C09": 40000, "C11": 40000, "C14": 40000}[prop]
-        n_enum = 1500 if prop == "C20" else 0
+        n_hist = {"C20": 60000, "C10": 150000, "C09": 150000, "C11": 150000, "C14": 150000}[prop]
+        n_enum = 4000 if prop == "C20" else 0
     if "DTSIM_RUNS" in os.environ:
         n_hist = int(os.environ["DTSIM_RUNS"])
         n_enum = min(n_enum, n_hist // 8)
@@ -400,6 +400,8 @@ def project_worker(task):
         return {"violations": r["violations"], "digest": r["digest"], "stats": r["stats"], "summary": scenario_summary(sc) if task["tid"] in ("h0", "h1", "h2") else None}
     if kind == "enum":
         sc = enum_base(task["seed"])
+        if sc is None:
+            return {"violations": [], "digest": "none", "stats": {"enum_skipped_no_op": 1}, "summary": None}
         r = engine_project.execute_enum(sc)
         s = scenario_summary(sc)
         s["enumerated_faults"] = r["nfaults"]
@@ -453,6 +455,8 @@ def enum_base(seed):
             break
     sc["ops"] = ops
     sc["twin_check"] = []
+    if not ops or ops[-1]["op"] not in ("sync", "sync_properties", "gen"):
+        return None  # this history has no doctrans operation to enumerate faults over
     return sc
 
 
